@@ -34,6 +34,19 @@ func (c *ctxT) emitNT(cs, obs sx.V, nontrivial bool) {
 	c.n++
 }
 func (c *ctxT) emit(cs, obs sx.V) { c.emitNT(cs, obs, true) }
+
+// begin/end: a case whose execution may kill the process (a panic in a layer's
+// own goroutine).  The case is on disk before it runs; a parent completes an
+// unfinished line with the observation "panic".
+func (c *ctxT) begin(cs sx.V) {
+	fmt.Fprintf(c.out, "%s\t%s\t", c.prop, cs)
+	c.out.Flush()
+}
+func (c *ctxT) end(obs sx.V) {
+	fmt.Fprintf(c.out, "%s\t1\n", obs)
+	c.out.Flush()
+	c.n++
+}
 func (c *ctxT) count(class string) { c.hist[class]++ }
 func (c *ctxT) thorough() bool     { return c.tier == "thorough" }
 
@@ -47,6 +60,9 @@ func (c *ctxT) scale(q, t int) int {
 
 var drivers = map[string]func(*ctxT){}
 
+// childKind is set in a crash-isolated child process (see c08.go)
+var childKind string
+
 func main() {
 	prop := flag.String("prop", "", "property id")
 	tier := flag.String("tier", "quick", "quick|thorough")
@@ -54,6 +70,7 @@ func main() {
 	outp := flag.String("out", "", "cases output file")
 	statp := flag.String("stats", "", "stats json output file")
 	flag.String("corpus", "", "unused")
+	flag.StringVar(&childKind, "child", "", "internal: run one crash-isolated batch")
 	flag.Parse()
 	d, ok := drivers[*prop]
 	if !ok {
